@@ -216,7 +216,7 @@ func TestVerifC17Inputs(t *testing.T) {
 				mu.Lock()
 				cur = j.in
 				mu.Unlock()
-				do := func(url string) (*http.Response, []byte) {
+				do := func(url string) (*http.Response, []byte, error) {
 					req, _ := http.NewRequest(j.method, url, nil)
 					if j.ae != "" {
 						req.Header.Set("Accept-Encoding", j.ae)
@@ -224,15 +224,23 @@ func TestVerifC17Inputs(t *testing.T) {
 					req.Header.Set("Accept", j.accept)
 					resp, err := cl.Do(req)
 					if err != nil {
-						panic("VERIF-INFRA: " + err.Error())
+						return nil, nil, err
 					}
 					b, _ := io.ReadAll(resp.Body)
 					resp.Body.Close()
-					return resp, b
+					return resp, b, nil
 				}
-				got, gotBody := do(srv.URL)
-				ref, refBody := do(plain.URL)
+				got, gotBody, gerr := do(srv.URL)
+				ref, refBody, rerr := do(plain.URL)
+				if rerr != nil {
+					panic("VERIF-INFRA: " + rerr.Error())
+				}
 				L.Case()
+				if gerr != nil {
+					// the same handler answers without the wrapper: the wrapper broke the exchange
+					L.Violation("request-fails-only-behind-the-gzip-handler", map[string]interface{}{"case": fmt.Sprintf("%+v", j.in.status), "accept_encoding": j.ae, "error": gerr.Error()})
+					continue
+				}
 				d := map[string]interface{}{"inner": fmt.Sprintf("status=%d explicit=%v ctype=%q cenc=%q cl=%v body=%d chunks=%v interim103=%v second-writeheader=%v", j.in.status, j.in.explicit, j.in.ctype, j.in.cenc, j.in.setCL, len(j.in.body), j.in.chunks, j.in.interim, j.in.reheader),
 					"accept_encoding": j.ae, "accept": j.accept, "got_status": got.StatusCode, "got_headers": got.Header, "got_len": len(gotBody)}
 				if len(j.in.body) > 0 {
